@@ -491,7 +491,8 @@ class Ctx:
         if self.anchors_changed:
             # an anchored function changed since the model was validated: look harder (not an alarm)
             return min(thorough, 6 * quick)
-        return quick
+        # the quick tier runs in seconds on this machine: triple the nominal case counts
+        return min(thorough, 3 * quick)
 
     def note_case(self, case, nontrivial=True):
         self.evaluations += 1
